@@ -1,0 +1,68 @@
+// Verification hooks. Compiled only with `--cfg micro_http_verif`; never part of a normal build.
+
+//! Hooks used by the external model-checking harness (`--cfg micro_http_verif`).
+//!
+//! Nothing in here changes the behaviour of the library unless the harness selects a
+//! non-default event order through [`set_event_order`].
+
+use std::cell::{Cell, RefCell};
+
+use vmm_sys_util::epoll::EpollEvent;
+
+thread_local! {
+    static EVENT_ORDER: Cell<u32> = const { Cell::new(0) };
+    static LAST_BATCH: RefCell<Vec<(i32, u32)>> = const { RefCell::new(Vec::new()) };
+}
+
+/// Code selecting the reversed (descending descriptor) order in [`set_event_order`].
+pub const ORDER_REVERSE: u32 = 1000;
+/// Base code selecting the i-th lexicographic permutation in [`set_event_order`].
+pub const ORDER_PERM_BASE: u32 = 2000;
+
+/// Selects the order in which the next readiness batches are processed by
+/// `HttpServer::requests`: `0` ascending descriptor number, `j` (`1 <= j < n`) the j-th
+/// descriptor first and the others ascending, [`ORDER_REVERSE`] descending,
+/// [`ORDER_PERM_BASE`]` + i` the i-th permutation in lexicographic order. Codes that do not
+/// apply to the size of a batch leave it in ascending order.
+pub fn set_event_order(code: u32) {
+    EVENT_ORDER.with(|c| c.set(code));
+}
+
+/// Returns `(descriptor, event bits)` of the batch most recently handled on this thread,
+/// in the order in which it was processed.
+pub fn last_batch() -> Vec<(i32, u32)> {
+    LAST_BATCH.with(|b| b.borrow().clone())
+}
+
+/// Puts a readiness batch into the order selected by [`set_event_order`].
+pub(crate) fn arrange(events: &mut [EpollEvent]) {
+    events.sort_by_key(|e| e.fd());
+    let n = events.len();
+    let code = EVENT_ORDER.with(|c| c.get());
+    if code == ORDER_REVERSE {
+        events.reverse();
+    } else if code >= ORDER_PERM_BASE {
+        // Decode the index into a permutation through its Lehmer code.
+        let mut idx = (code - ORDER_PERM_BASE) as usize;
+        let mut fact = 1usize;
+        for i in 1..=n {
+            fact = fact.saturating_mul(i);
+        }
+        if n > 0 && idx < fact {
+            let mut pool: Vec<EpollEvent> = events.to_vec();
+            for slot in events.iter_mut() {
+                fact /= pool.len();
+                let pick = idx / fact;
+                idx %= fact;
+                *slot = pool.remove(pick);
+            }
+        }
+    } else if code > 0 && (code as usize) < n {
+        events[..=(code as usize)].rotate_right(1);
+    }
+    LAST_BATCH.with(|b| {
+        let mut b = b.borrow_mut();
+        b.clear();
+        b.extend(events.iter().map(|e| (e.fd(), e.events())));
+    });
+}
